@@ -363,3 +363,60 @@ def virtual_battery():
 
 
 virtual_judge = literal_judge
+
+
+# ------------------------------------------------------------------ C06 binding by header name
+
+def binding_battery():
+    # signal list: output first, inputs in an order different from the headers, a bidirectional pair
+    S = [("out", "Y", 8), ("in", "B", 8, 7), ("in", "A", 8, 1), ("bidir", "D", 8, 165), ("out", "Q", 4)]
+    b = []
+    b.append(Scenario("A B Y\n1 0 3\n1 1 3\n1 1 4\n0 1 4\n", S, default_answer=[0, 0, 0],
+                      expect={"row_inputs_full": [[("B", "0", True), ("A", "1", True), ("D", "165", False)],
+                                                  [("B", "1", True), ("A", "1", False), ("D", "165", False)],
+                                                  [("B", "1", False), ("A", "1", False), ("D", "165", False)],
+                                                  [("B", "1", False), ("A", "0", True), ("D", "165", False)]],
+                              "row_expected": [["3", "X", "X"], ["3", "X", "X"], ["4", "X", "X"], ["4", "X", "X"]]},
+                      note="header order differs from signal order; omitted bidirectional at its default"))
+    b.append(Scenario("D Y\n5 X\n7 X\nZ X\n", S, default_answer=[0, 0, 0],
+                      expect={"row_inputs_full": [[("B", "7", False), ("A", "1", False), ("D", "5", True)],
+                                                  [("B", "7", False), ("A", "1", False), ("D", "7", True)],
+                                                  [("B", "7", False), ("A", "1", False), ("D", "Z", True)]],
+                              "row_expected": [["X", "X", "X"]] * 3},
+                      note="partial bidirectional pair: D without D_out expects X"))
+    b.append(Scenario("D_out Q\n5 1\n6 1\n", S, default_answer=[0, 0, 0],
+                      expect={"row_inputs_full": [[("B", "7", False), ("A", "1", False), ("D", "165", False)]] * 2,
+                              "row_expected": [["X", "5", "1"], ["X", "6", "1"]]},
+                      note="split pair: D_out without D keeps D at its default, unchanged"))
+    b.append(Scenario("Q D_out D A\n1 2 3 4\n1 2 3 4\n2 2 4 4\n", S, default_answer=[0, 0, 0],
+                      expect={"row_inputs_full": [[("B", "7", False), ("A", "4", True), ("D", "3", True)],
+                                                  [("B", "7", False), ("A", "4", False), ("D", "3", False)],
+                                                  [("B", "7", False), ("A", "4", False), ("D", "4", True)]],
+                              "row_expected": [["X", "2", "1"], ["X", "2", "1"], ["X", "2", "2"]]},
+                      note="full pair with permuted columns"))
+    b.append(Scenario("B\n1\n", S, default_answer=[0, 0, 0],
+                      expect={"row_inputs_full": [[("B", "1", True), ("A", "1", False), ("D", "165", False)]],
+                              "row_expected": [["X", "X", "X"]]}, note="single column"))
+    return b
+
+
+def binding_judge_one(o, sc):
+    e = sc.expect
+    if "row_inputs_full" in e:
+        got = [[tuple(x) for x in r["inputs"]] for r in o.rows]
+        want = [[tuple(x) for x in r] for r in e["row_inputs_full"]]
+        if got != want:
+            for k, (g, w) in enumerate(zip(got, want)):
+                if g != w:
+                    return "row %d carries inputs (name, value, changed) %s, expected %s (%s)" % (k + 1, g, w, sc.note)
+            return "rows carry %d input vectors, expected %d (%s)" % (len(got), len(want), sc.note)
+    # changed == False  =>  same value as in the previous vector handed to the driver
+    for k in range(1, len(o.calls)):
+        prev = dict((n, v) for n, v, _, _ in o.calls[k - 1][2])
+        for n, v, ch, _ in o.calls[k][2]:
+            if not ch and prev.get(n) != v:
+                return "%s is flagged unchanged in call %d but went from %s to %s" % (n, k, prev.get(n), v)
+    return literal_judge_one(o, sc)
+
+
+binding_judge = no_panic_judge(binding_judge_one)
